@@ -305,8 +305,12 @@ func (s *Session) Mail(from string, opts *smtp.MailOptions) error {
 		}
 	}
 
-	// Keep the MAIL FROM argument for deferred startDelivery.
-	s.mailFrom = from
+	if s.endp.deferServerReject {
+		// Keep the MAIL FROM argument for deferred startDelivery.
+		// Otherwise startDelivery has already stored the normalized address
+		// that was used to take the limits, releaseLimits needs exactly it.
+		s.mailFrom = from
+	}
 	s.opts = *opts
 
 	return nil
